@@ -66,3 +66,10 @@ CHECKS["C12"] = dict(
  text="All combinations of payload type {int, str, [int...], class}, carrier {variable, parameter, function result, list element, field, built-in result, literal}, nil | present, construct {== nil in both operand orders, != nil, get, (x) or y with a logging fallback, chained or, ?= as statement / expression value / if condition / while condition, present == plain in both orders}, position {declaring block, nested block, else block, doubly nested block, loop body, nested function} and ?= target declared in the same or the enclosing block (about 4 800 expressible programs). Oracle: reference interpreter (exact stdout, success/failure); a failing `get` must be a run-time error naming file and line of that `get` with a column inside it; the `or` fallback must not be evaluated when the value is present.",
  note="Objects are observed through a field. Programs the type checker rejects (e.g. chained `or`, list == fixed-list literal) are counted as rejected, not explored.",
  design_ref="DESIGN.md section 4, C12")
+
+CHECKS["C15"] = dict(
+ category="model_checking",
+ technique="bounded exhaustive enumeration of typed expression trees over logging leaves; the log of each program (one reference-model trace) is compared with the real CLI's",
+ text="Expression trees over logging leaves t(i) / r(i) (recursive leaf that re-enters the same code one frame deeper) / b(i) / o(i) and nodes E-E, E*E, string concatenation, E<E, f2..f4(E,..), obj.m(E,E), list literals, list literal + index, map literals, &&, ||, !, (O) or E: all trees of depth <=1 in six statement contexts (print, assignment, if / while condition, call argument, return); depth 2 by rule 1 with all leaf combinations, and with both children arbitrary for the roots -, &&, ||, or, !; depth-3 spines; thorough adds full binary depth 2 in two contexts, depth-3 rule 1 (1.17 M trees, capped) and depth-4 spines. Oracle: reference interpreter - the exact sequence of log lines (each leaf exactly once unless short-circuited) and the final value; disagreements are classified as order / evaluation-count / value.",
+ note="Leaf values are kept small so no overflow occurs; a map literal is observed through its length only.",
+ design_ref="DESIGN.md section 4, C15")
